@@ -9,7 +9,8 @@ PROP = 'C11'
 GEN = ['Costs']
 COQ = ['Model/Num.v', 'Model/Costs.v', 'Proofs/NumFacts.v', 'Proofs/CostsFacts.v', 'Gen/Costs.v', 'Properties/C11.v']
 RULE = ('random trading scenarios (daily and minute bars, volume caps small enough to split orders into several fills, '
-        'all commission/tax multipliers, by-money and by-volume futures, dates on both sides of 2023-08-28); a case is one '
+        'all commission/tax multipliers, by-money and by-volume futures, two contracts of one underlying with schedules overridden per contract or per '
+        'underlying in base.future_info, dates on both sides of 2023-08-28); a case is one '
         'executed trade; non-trivial+distinct = distinct (instrument kind, side/effect, fill index of the order, '
         'below/at/above the minimum commission, close-today split) classes')
 ASSUMPTIONS = ['float64 rounding not modelled: model values are exact rationals of the recorded float inputs, compared at 1e-9 relative',
@@ -22,6 +23,11 @@ Definition chk_stock (c : scost) (e : cm_entry) (is_cs sell : bool) (p q comm ta
   let r := trade_commission c e p q in
   approx (fst r) comm && approx_opt (snd r) e' && approx (trade_tax c is_cs sell p q) tax.
 Definition chk_fut (f : fcost) (is_open : bool) (p q ct comm : Q) : bool := approx (fut_commission f is_open p q ct) comm.
+Definition chk_fut_sched (f : fcost) (oc ou : option fover) (is_open : bool) (p q ct comm : Q) : bool :=
+  match future_schedule (fun _ => None) (fun _ => Some f) (fun _ => oc) (fun _ => ou) 0 0 with
+  | Some f' => approx (fut_commission f' is_open p q ct) comm
+  | None => false
+  end.
 Definition chk_reserve_close (c : scost) (is_cs sell : bool) (p q r : Q) : bool := approx (order_cost c is_cs sell p q) r.
 '''
 
@@ -37,6 +43,34 @@ def gen(rng, tier):
     sim['volume_percent'] = rng.choice([0.25, 0.1, 0.5])
     sim['slippage'] = 0 if rng.random() < 0.7 else sim['slippage']
     scn['cfg']['mod']['sys_accounts']['dividend_reinvestment'] = rng.random() < 0.5
+    if 'future' in scn['cfg']['base']['accounts'] and rng.random() < 0.4:
+        # two contracts of one underlying, and fee schedules overridden in the configuration (base.future_info) for a contract or for the underlying
+        sib = 'RB2011'
+        scn['world_overrides'] = dict(scn.get('world_overrides') or {}, siblings={sib: 'RB2010'})
+        fi = {}
+        for key in rng.sample(['RB2010', sib, 'RB', 'AG2010', 'AG'], rng.randint(1, 2)):
+            ov = {}
+            if rng.random() < 0.6:
+                ov['commission_type'] = rng.choice(['by_volume', 'by_money'])
+            for f in ('open_commission_ratio', 'close_commission_ratio', 'close_commission_today_ratio'):
+                if rng.random() < 0.6:
+                    ov[f] = rng.choice([0.0003, 2.0, 0.0, 5.5]) if ov.get('commission_type') != 'by_money' else rng.choice([0.0003, 0.0, 0.00005])
+            if ov:
+                fi[key] = ov
+        if fi:
+            scn['cfg']['base']['future_info'] = fi
+        pair = ['RB2010', sib]
+        if rng.random() < 0.5:
+            pair.reverse()          # which contract is looked up first matters to a cache
+        scn['universe'] = sorted(set((scn.get('universe') or []) + pair))
+        scn['meta']['futs'] = sorted(set(scn['meta']['futs'] + pair))
+        days_ = sorted(set(int(k.split('|')[0]) for k in scn['script'] if int(k.split('|')[0]) >= 0)) or [scn['start_i']]
+        slots = [k for k in scn['script'] if k.split('|')[1] == 'handle_bar' and int(k.split('|')[0]) >= 0] or ['%d|handle_bar|0' % scn['start_i']]
+        first = min(slots, key=lambda k: (int(k.split('|')[0]), int(k.split('|')[2])))
+        scn['script'].setdefault(first, [])[:0] = [dict(op='buy_open', id=pair[0], amt=2, style='mkt'), dict(op='sell_open', id=pair[1], amt=3, style='mkt')]
+        for k in slots:
+            if rng.random() < 0.5:
+                scn['script'][k].append(scenario.future_action(rng, rng.choice(pair)))
     return scn
 
 
@@ -121,7 +155,10 @@ def analyse(scn, out):
                           dict(component='commission/tax of a stock trade', trade=tr, entry_before=e0, entry_after=e1)))
             cls = ('S', ins['kind'], tr['side'], min(po['n'], 4), 'lt' if 0.0008 * smult * p * q < minc else 'ge', smult == 0, minc == 0)
         else:
-            info = finfo[ins['und']]
+            info = dict(finfo[ins['und']])
+            custom = cfg['base'].get('future_info') or {}
+            oc, ou = custom.get(tr['oid']), custom.get(ins['und'])
+            info.update(oc or ou or {})       # the property's reading: the contract's own entry, else the underlying's
             pp = None
             if acc and t['pre'].get('acc'):
                 pp = t['pre']['acc'][acc]['pos'].get(tr['oid'], {}).get(tr['dir'])
@@ -145,7 +182,21 @@ def analyse(scn, out):
                 qlit(info['close_commission_today_ratio']), qlit(fmult))
             cases.append(('chk_fut %s %s %s %s %s %s' % (f, blit(tr['eff'] == 'OPEN'), qlit(p), qlit(q), qlit(tr['ct'] or 0.0), qlit(tr['commission'])),
                           dict(component='commission of a futures trade', trade=tr)))
-            cls = ('F', bm, tr['eff'], 0 < ct_exp < q)
+            if custom:
+                d0 = finfo[ins['und']]
+                f0 = '{| fc_by_money := %s; fc_mult := %s; fc_open := %s; fc_close := %s; fc_close_today := %s; fc_cmult := %s |}' % (
+                    blit(d0['commission_type'] == 'by_money'), qlit(ins['mult']), qlit(d0['open_commission_ratio']), qlit(d0['close_commission_ratio']),
+                    qlit(d0['close_commission_today_ratio']), qlit(fmult))
+
+                def ovl(o):
+                    if not o:
+                        return 'None'
+                    return '(Some {| ov_by_money := %s; ov_open := %s; ov_close := %s; ov_close_today := %s |})' % (
+                        'None' if 'commission_type' not in o else '(Some %s)' % blit(o['commission_type'] == 'by_money'),
+                        olit(o.get('open_commission_ratio')), olit(o.get('close_commission_ratio')), olit(o.get('close_commission_today_ratio')))
+                cases.append(('chk_fut_sched %s %s %s %s %s %s %s %s' % (f0, ovl(oc), ovl(ou), blit(tr['eff'] == 'OPEN'), qlit(p), qlit(q), qlit(tr['ct'] or 0.0), qlit(tr['commission'])),
+                              dict(component='schedule lookup + commission of a futures trade', trade=tr, override_contract=oc, override_underlying=ou)))
+            cls = ('F', bm, tr['eff'], 0 < ct_exp < q, bool(oc), bool(ou))
         keys.add(repr(cls))
         if sample is None and tr['order_id'] is not None:
             sample = dict(trade=tr, cfg=tc)
